@@ -49,8 +49,9 @@ Exprs == << Kids,                                                        \* 1  /
             Call(<<"c","o","u","n","t">>, <<Bin("union", VVar, Kids)>>), \* 8  count($v | /r/*)
             Filter(Bin("union", VVar, WVar), <<Call(<<"l","a","s","t">>, <<>>)>>, <<Step("parent", T_node)>>),  \* 9
             Abs(<<DoS, StepP("child", T_any, <<Bin("eq", Rel(<<Self>>), VVar)>>)>>),   \* 10 //*[. = $v]
-            Filter(VVar, <<>>, <<Step("self", T_name("", <<"c">>))>>) >>   \* 11 $v/self::c  (a node test applied to the held set itself)
-UsesV(i) == i \in {3, 4, 5, 6, 7, 8, 9, 10, 11}
+            Filter(VVar, <<>>, <<Step("self", T_name("", <<"c">>))>>),   \* 11 $v/self::c  (a node test applied to the held set itself)
+            Filter(VVar, <<>>, <<DoS, Step("child", T_node)>>) >>           \* 12 $v//node()  (descendant-or-self starts from the held set itself)
+UsesV(i) == i \in {3, 4, 5, 6, 7, 8, 9, 10, 11, 12}
 UsesW(i) == i \in {4, 9}
 
 Contents(h) == SubSeq(arrays[held[h].arr], held[h].off + 1, held[h].off + held[h].len)
